@@ -11,12 +11,20 @@
      the write plan of one sync: delete when no owner remains, update when the recorded merged
      bitmap differs from the desired one.  TLC checks that the plan keeps Mirror.
 
+   A full table (Cap > 0 = the number of entries the kernel hash map holds): an update that needs a new entry when none
+   is free fails (E2BIG); the code then leaves its bookkeeping alone, the DNS controller syncs the entry again later
+   (Retry: the next cache hit, or the periodic re-sync).  owners in `failed` are those whose last sync failed;
+   MirrorWhenSynced demands Mirror whenever no owner is in that state.  (Only failures of single-entry updates are
+   generated: a batch that fails half-way leaves a kernel-dependent part written.)
+
    Bitmaps are subsets of Bits (OR = union); the harness maps them to real 1024-bit bitmaps with the
    bits spread over different words. *)
 EXTENDS Integers, Sequences, FiniteSets, TLC, Json
 
 CONSTANTS Owners, Addrs, Unspec, Bits, MaxHist,
-          GenBms, GenIpsets     \* the bitmaps / address sets an Update may use (all of them in the exhaustive config)
+          GenBms, GenIpsets,    \* the bitmaps / address sets an Update may use (all of them in the exhaustive config)
+          Cap,                  \* capacity of the kernel table (0: never full)
+          BookkeepFirst         \* FALSE = the code (bookkeeping after the kernel writes); TRUE = before them (must violate)
 
 AllAddrs == Addrs \cup {Unspec}
 NoEntry == [bm |-> {}, ips |-> {}]
@@ -24,13 +32,15 @@ NoEntry == [bm |-> {}, ips |-> {}]
 VARIABLES live,      \* property layer: the cache
           kern,      \* the kernel table: [Addrs -> SUBSET Bits] \cup "absent" encoded as a partial function
           tOwners, tIps,   \* implementation layer: tracker bookkeeping
+          failed,    \* owners whose last sync failed (table full)
           hist
-vars == <<live, kern, tOwners, tIps, hist>>
+vars == <<live, kern, tOwners, tIps, failed, hist>>
 
 Init == /\ live = [k \in Owners |-> NoEntry]
         /\ kern = [a \in {} |-> {}]
         /\ tOwners = [k \in {} |-> NoEntry]
         /\ tIps = [a \in {} |-> [owners |-> [k \in {} |-> {}], merged |-> {}]]
+        /\ failed = {}
         /\ hist = <<>>
 
 (* ---------------- reference: what the table must contain ---------------- *)
@@ -86,25 +96,53 @@ KernRecs(kk) == [i \in 1..Cardinality(DOMAIN kk) |->
                    IN [addr |-> a, bm |-> kk[a]]]
 
 (* ---------------- cache events ---------------- *)
+\* the kernel refuses a new entry when the table is full (updates are written before deletes)
+Overflows(k, s) == Cap > 0 /\ Cardinality((DOMAIN kern) \cup ToUpdate(k, s)) > Cap
+SingleNew(k, s) == Cardinality(ToUpdate(k, s)) = 1 /\ ToUpdate(k, s) \cap DOMAIN kern = {}
+\* one sync of owner k with snapshot s, as the outcome of BatchUpdateDomainRouting
+TrySync(k, s, ev) ==
+    IF Overflows(k, s)
+    THEN /\ SingleNew(k, s)                                     \* (other overflowing batches are not generated)
+         /\ kern' = kern
+         /\ IF BookkeepFirst
+            THEN /\ tIps' = AddOwner(RemoveOwner(tIps, k, OldIps(k)), k, s)
+                 /\ tOwners' = IF Usable(s) THEN [o \in (DOMAIN tOwners) \cup {k} |-> IF o = k THEN s ELSE tOwners[o]]
+                                ELSE [o \in (DOMAIN tOwners) \ {k} |-> tOwners[o]]
+            ELSE UNCHANGED <<tOwners, tIps>>
+         /\ failed' = failed \cup {k}
+         /\ hist' = Append(hist, [a |-> ev, k |-> k, bm |-> live'[k].bm, ips |-> live'[k].ips, ok |-> FALSE, after |-> KernRecs(kern')])
+    ELSE /\ Sync(k, s)
+         /\ failed' = failed \ {k}
+         /\ hist' = Append(hist, [a |-> ev, k |-> k, bm |-> live'[k].bm, ips |-> live'[k].ips, ok |-> TRUE, after |-> KernRecs(kern')])
 \* an answer is cached / refreshed / replaced under owner k  (BatchUpdateDomainRouting)
 Update(k, bm, ips) ==
     /\ live' = [live EXCEPT ![k] = [bm |-> bm, ips |-> ips]]
-    /\ Sync(k, Snap(bm, ips))
-    /\ hist' = Append(hist, [a |-> "update", k |-> k, bm |-> bm, ips |-> ips, after |-> KernRecs(kern')])
+    /\ TrySync(k, Snap(bm, ips), "update")
+\* the controller syncs an entry again whose last sync failed
+Retry(k) ==
+    /\ k \in failed
+    /\ live' = live
+    /\ TrySync(k, Snap(live[k].bm, live[k].ips), "update")
 \* the entry of owner k expires / is rejected / evicted  (BatchRemoveDomainRouting)
 Remove(k) ==
     /\ live' = [live EXCEPT ![k] = NoEntry]
     /\ Sync(k, Snap({}, {}))
-    /\ hist' = Append(hist, [a |-> "remove", k |-> k, bm |-> {}, ips |-> {}, after |-> KernRecs(kern')])
+    /\ failed' = failed \ {k}
+    /\ hist' = Append(hist, [a |-> "remove", k |-> k, bm |-> {}, ips |-> {}, ok |-> TRUE, after |-> KernRecs(kern')])
 
 Next == /\ Len(hist) < MaxHist
         /\ \/ \E k \in Owners, bm \in GenBms, ips \in GenIpsets : Update(k, bm, ips)
            \/ \E k \in Owners : Remove(k)
+           \/ \E k \in Owners : Retry(k)
 Spec == Init /\ [][Next]_vars
 
 (* ---------------- properties ---------------- *)
+MirrorWhenSynced == failed = {} => Mirror
+\* histories worth replaying in the capacity configuration: at least one sync failed
+HadFailure == \E i \in DOMAIN hist : ~hist[i].ok
+EmitFail == (Len(hist) = MaxHist /\ HadFailure /\ failed = {}) => PrintT(<<"BEHAVIOUR", ToJson([hist |-> hist])>>)
 TrackerConsistent == \A a \in DOMAIN tIps : tIps[a].merged = UNION {tIps[a].owners[o] : o \in DOMAIN tIps[a].owners}
-View == <<live, kern, tOwners, tIps>>
+View == <<live, kern, tOwners, tIps, failed>>
 
 Behaviour == [hist |-> hist]
 \* one record per complete history; every step carries the expected table after it
